@@ -16,6 +16,8 @@ import (
 	"sort"
 	"strings"
 	"time"
+
+	"github.com/superfly/litefs"
 )
 
 // Ctx is the per-run context given to a suite.
@@ -251,6 +253,9 @@ func main() {
 	}
 	if os.Getenv("VERIF_LOG") == "" {
 		log.SetOutput(io.Discard) // litefs logs through the standard logger
+	}
+	if os.Getenv("VERIF_TRACE") != "" {
+		litefs.TraceLog.SetOutput(os.Stderr)
 	}
 	name := flag.Arg(0)
 	su, ok := suites[name]
